@@ -1,3 +1,95 @@
 import Driver.Common
-/-! Model driver for C12 — not built yet. -/
-def main (_args : List String) : IO Unit := pure ()
+import Logrange.Proofs.Lql
+/-! Model driver for C12 (LQL print / re-parse). Requests (byte strings hex, `-` = empty):
+
+* `lits` → `ok (<struct> <n> <literal>*)*`: the literals of every struct's regenerated grammar, in order (the harness'
+  generators spell keywords the way the struct tags do)
+* `lex <text>` → `ok <n> (<type> <value>)*` | `err`                        (token stream after participle's unquote)
+* `stmt <text> <k> (<lit> <ok 0|1> <unixnano> <rendered>)*`                 whole statement, root `Lql`
+    → `ok <canonical AST> | <printed text> | <classes,comma separated or ->` | `err`
+  the table is the opaque date parser/printer (C20's territory): literal text → parse result and `time.String()` of it
+* `expr <text>` / `source <text>` → `E=<ok canon|err> D=<ok canon|err> P=<printed|-> C=<classes>`
+    engine on the regenerated grammar (root `Expression` / `Source`) and the direct parser, printed text of the engine's AST
+-/
+open Go Logrange.Lql Driver
+
+def ttName : TT → String
+  | .keyword => "K" | .ident => "I" | .string => "S" | .operator => "O" | .number => "N" | .tags => "T"
+
+structure DateRow where
+  lit : Bytes
+  ok : Bool
+  val : Int
+  rendered : Bytes
+
+def parseRows : List String → List DateRow
+  | l :: o :: v :: r :: rest => ⟨unhex l, o == "1", (v.toInt?).getD 0, unhex r⟩ :: parseRows rest
+  | _ => []
+
+def dpOf (rows : List DateRow) (lit : Bytes) : Option Int :=
+  match rows.find? (fun r => r.lit == lit) with
+  | some r => if r.ok then some r.val else none
+  | none => none
+
+def rdOf (rows : List DateRow) (v : Int) : Bytes :=
+  match rows.find? (fun r => r.ok && r.val == v) with
+  | some r => r.rendered
+  | none => Go.ofAscii "?"
+
+def g := Logrange.Generated.C12.grammar
+
+/-- the literals of a grammar node, in order of appearance -/
+partial def litsOf : Node → List Bytes
+  | .seq ns => ns.flatMap litsOf
+  | .disj ns => ns.flatMap litsOf
+  | .group n _ => litsOf n
+  | .capture _ n => litsOf n
+  | .ref _ => []
+  | .lit s => [s]
+  | .strct _ => []
+
+def joinC (l : List String) : String := if l.isEmpty then "-" else ",".intercalate l
+
+def step (_ : Unit) (toks : List String) : Unit × String :=
+  match toks with
+  | ["lex", t] =>
+    (match lex (unhex t) with
+     | none => ((), "err")
+     | some ts => ((), s!"ok {ts.length}" ++ String.join (ts.map (fun tk => " " ++ ttName tk.t ++ " " ++ hex tk.v))))
+  | "stmt" :: t :: _k :: rows =>
+    let rows := parseRows rows
+    (match lex (unhex t) with
+     | none => ((), "err")
+     | some ts =>
+       match runEngine g "Lql" ts with
+       | none => ((), "err")
+       | some v =>
+         match toLql (dpOf rows) (8 * ts.length + 50) v with
+         | none => ((), "err")
+         | some l => ((), s!"ok {canonLql l} | {hex (printLql (rdOf rows) l)} | {joinC (classes (rdOf rows) l)}"))
+  | ["expr", t] =>
+    (match lex (unhex t) with
+     | none => ((), "E=err D=err P=- C=- W=--")
+     | some ts =>
+       let e := (runEngine g "Expression" ts).bind (fun v => toExpr (8 * ts.length + 50) v)
+       let d := directExpr ts
+       let sh := fun (x : Option Expr) => match x with | some a => "ok " ++ canonExpr a | none => "err"
+       let w := match e with | some a => (if wfExpr a then "1" else "0") ++ (if lex (printExpr a) == some (toksExpr a) then "1" else "0") | none => "--"
+       ((), s!"E={sh e} D={sh d} P={match e with | some a => hex (printExpr a) | none => "-"} C=- W={w}"))
+  | ["source", t] =>
+    (match lex (unhex t) with
+     | none => ((), "E=err D=err P=- C=- W=--")
+     | some ts =>
+       let e := (runEngine g "Source" ts).bind (fun v => toSource (8 * ts.length + 50) v)
+       let d := directSource ts
+       let sh := fun (x : Option Source) => match x with | some a => "ok " ++ canonSource a | none => "err"
+       let w := match e with | some a => (if wfSource a then "1" else "0") ++ (if lex (printSource a) == some (toksSource a) then "1" else "0") | none => "--"
+       ((), s!"E={sh e} D={sh d} P={match e with | some a => hex (printSource a) | none => "-"} C={match e with | some a => joinC (sourceClasses a) | none => "-"} W={w}"))
+  | ["lits"] =>
+    ((), "ok" ++ String.join (Logrange.Generated.C12.structNames.map (fun n =>
+      match g n with
+      | some node => let ls := litsOf node; s!" {n} {ls.length}" ++ String.join (ls.map (fun l => " " ++ hex l))
+      | none => s!" {n} 0")))
+  | _ => ((), "bad-op")
+
+def main (args : List String) : IO Unit := Driver.run step () args
